@@ -296,12 +296,12 @@ WITNESSES = [
                              'main.py': 'import core\nfrom slow import helper\n\nprint(core.helper(2), helper(3))\n'}),
      'main': 'main.py', 'features': ['witness:name-before-as']},
     # two imports of one spelling in try/except, never used below: tied from one side only
-    {'files': dict(_DEFS, **{'views.py': 'try:\n    from fast import helper\nexcept ImportError:\n    from slow import helper\n',
-                             'main.py': 'import views\nimport slow\n\nprint(views.helper(2), slow.helper(3))\n'}),
+    {'files': dict(_DEFS, **{'views.py': 'try:\n    from fast import helper\nexcept ImportError:\n    from slow import helper\nLEVEL = 3\n',
+                             'main.py': 'import views\nimport slow\n\nprint(views.LEVEL, slow.helper(3))\n'}),
      'main': 'main.py', 'features': ['witness:tie-without-use']},
     # flow analysis decides the `if` during the scan: the use is tied to one branch only
     {'files': dict(_DEFS, **{'main.py': 'from fast import helper\n\n\ndef choose(val):\n    if val:\n        from fast import helper\n'
                                         '    else:\n        from slow import helper\n    return helper(val)\n\n\n'
-                                        'print(helper(1), choose(1), choose(0))\n'}),
+                                        'print(helper(1), choose(1), choose(2))\n'}),
      'main': 'main.py', 'features': ['witness:tie-if']},
 ]
